@@ -579,6 +579,45 @@ def ctx_has_new(ctx):
     return False
 
 
+def other_users_cookie(ctx, env):
+    """DBUS_COOKIE_SHA1 for a user other than the one the bus runs as (a system bus serving several users): a conforming
+    client looks the cookie up in the keyring of the user it named - ~user/.dbus-keyrings - and, answering with what it
+    finds there, is accepted."""
+    hx = binascii.hexlify
+    for k in range(3):
+        case = {'kind': 'other-user', 'k': k}
+        s_ = Session()
+        s_.feed([b'\0'])
+        lines = s_.feed([b'AUTH DBUS_COOKIE_SHA1 ' + hx(authenv.USER2.encode()) + b'\r\n'])
+        ctx.count('evaluations')
+        ctx.count('other_user_cookie_exchanges')
+        w = {'lines': [l.decode('latin1')[:80] for l in lines]}
+        try:
+            context, cid, server_challenge = binascii.unhexlify(lines[-1].split(b' ', 1)[1]).split(b' ')
+        except Exception:
+            ctx.report('cookie-challenge-format', 'AUTH DBUS_COOKIE_SHA1 for another user answered %r' % lines, w, case)
+            return
+        try:
+            cookie = env.read_cookie(context, cid, home=env.home2)
+        except OSError:
+            cookie = None
+        if cookie is None:
+            ctx.report('cookie-not-in-users-keyring', 'the cookie the bus refers to (context %r id %r) is not in the keyring of '
+                       'the user the client named (~%s/.dbus-keyrings): a conforming client cannot answer' % (
+                           context, cid, authenv.USER2), w, case)
+            return
+        lines = s_.feed([b'DATA ' + hx(authenv.cookie_response(server_challenge, cookie)) + b'\r\n'])
+        if not lines or kind_of(lines[-1]) != 'OK':
+            ctx.report('conforming-client-refused', 'the right answer computed from ~%s/.dbus-keyrings got %r' % (
+                authenv.USER2, lines), w, case)
+            return
+        s_.feed([b'BEGIN\r\n'])
+        if s_.p.auth_calls != 1:
+            ctx.report('conforming-client-refused', 'BEGIN after OK did not authenticate', w, case)
+            return
+        s_.finish()
+
+
 def concurrent_cookie_clients(ctx, env, n_histories):
     """Several connections run the DBUS_COOKIE_SHA1 exchange against the same keyring with their steps interleaved
     (and finishing out of order, some abandoning): every conforming client - one that answers with the cookie the
@@ -747,6 +786,7 @@ def run(ctx):
             boundary_probes(ctx, env)
             conforming_clients(ctx, env)
             concurrent_cookie_clients(ctx, env, 300 if ctx.tier == 'quick' else 6000)
+            other_users_cookie(ctx, env)
         ctx.sample({'symbols': ['AUTH_COOKIE_user', 'DATA_right', 'BEGIN'],
                     'meaning': 'AUTH DBUS_COOKIE_SHA1 <hex user>; DATA <hex answer computed from the live challenge>; BEGIN'})
         ctx.sample({'symbols': ['AUTH_BOGUS'] * 6, 'expected': '5 x REJECTED then close'})
